@@ -24,10 +24,9 @@ What is here:
   same six systems, on every non-wildcard version that has the shape of an AST image
   (`IsAstImage`), the three clauses of the property and the injectivity clause;
 * `parse_image`: everything `Parse` accepts in these systems IS such an image (proved, for
-  all inputs; for NuGet under `NoFloatingLabel`: no `*` in a prerelease/build identifier), hence
-  `canon_roundtrip` and `canon_injective_up_to_compare`: the property itself for Default,
-  Cargo, Go, NPM, Composer and NuGet on every non-wildcard version `Parse` accepts;
-  NuGet's floating prerelease labels (`1.0.0-a*`) remain outside the theorem;
+  all inputs; NuGet's floating labels `1.0.0-a*` included), hence `canon_roundtrip` and
+  `canon_injective_up_to_compare`: the property itself for Default, Cargo, Go, NPM, Composer
+  and NuGet on every non-wildcard version `Parse` accepts (`c10_generic`);
 * Maven, PyPI, RubyGems: the statements only (`CanonRoundTripFull`), covered by the
   differential correspondence and the round-trip oracle, not by a theorem.
 -/
@@ -197,14 +196,11 @@ possibly fewer than three or with wildcards, prerelease identifiers, build ident
 under the embedding, whatever its `userNumCount` and `isPrerelease`. -/
 def IsAstImage (s : System) (v : Version) : Prop := ∃ bids, Shape s v bids
 
-/-- NuGet floating versions (`1.0.0-a*`): the theorems below do not cover identifiers with `*`. -/
-def NoFloatingLabel (v : Version) : Bool := StarFree v
-
-/-- **The tie (proved).** Everything `Parse` accepts in a SemVer-family system is an AST image;
-for NuGet provided no identifier contains `*`. -/
-theorem parse_image (s : System) (hs : IsGeneric s) (b : Bytes) (v : Version) (hp : parse s b = .ok v)
-    (hstar : s = .nuget → NoFloatingLabel v = true) : IsAstImage s v :=
-  parse_shape s ((generic_iff s).mp hs) b v hp hstar
+/-- **The tie (proved).** Everything `Parse` accepts in a SemVer-family system is an AST image
+(NuGet's floating labels `1.0.0-a*` included: its identifiers may contain one `*`). -/
+theorem parse_image (s : System) (hs : IsGeneric s) (b : Bytes) (v : Version) (hp : parse s b = .ok v) :
+    IsAstImage s v :=
+  parse_shape s ((generic_iff s).mp hs) b v hp
 
 /-- **C10-b, clauses 1–3 (partial).** For a SemVer-family system, every non-wildcard AST image
 round-trips through its canonical string, with or without build metadata. -/
@@ -232,19 +228,31 @@ theorem canon_injective_up_to_compare_partial (s : System) (hs : IsGeneric s) (v
   exact cv
 
 /-- **C10, clauses 1–3, for the SemVer-family systems**: every non-wildcard version `Parse`
-accepts round-trips through its canonical string (NuGet: without floating labels). -/
+accepts round-trips through its canonical string. -/
 theorem canon_roundtrip (s : System) (hs : IsGeneric s) (b : Bytes) (v : Version) (sb : Bool)
-    (hp : parse s b = .ok v) (hw : NotWildcard v = true) (hstar : s = .nuget → NoFloatingLabel v = true) :
-    RoundTrips s v sb :=
-  canon_roundtrip_partial s hs v (parse_image s hs b v hp hstar) hw sb
+    (hp : parse s b = .ok v) (hw : NotWildcard v = true) : RoundTrips s v sb :=
+  canon_roundtrip_partial s hs v (parse_image s hs b v hp) hw sb
 
 /-- **C10, clause 4, for the SemVer-family systems**: two non-wildcard parsed versions with the
 same canonical string compare equal. -/
 theorem canon_injective_up_to_compare (s : System) (hs : IsGeneric s) (b1 b2 : Bytes) (v w : Version)
     (hp1 : parse s b1 = .ok v) (hp2 : parse s b2 = .ok w) (hnv : NotWildcard v = true) (hnw : NotWildcard w = true)
-    (hsv : s = .nuget → NoFloatingLabel v = true) (hsw : s = .nuget → NoFloatingLabel w = true)
     (h : canon v true = canon w true) : vcompare v w = .ok 0 :=
-  canon_injective_up_to_compare_partial s hs v w (parse_image s hs b1 v hp1 hsv) (parse_image s hs b2 w hp2 hsw) hnv hnw h
+  canon_injective_up_to_compare_partial s hs v w (parse_image s hs b1 v hp1) (parse_image s hs b2 w hp2) hnv hnw h
+
+/-- The property as stated (`C10Stated`) restricted to the six SemVer-family systems. -/
+theorem c10_generic (s : System) (hs : IsGeneric s) :
+    (∀ (b : Bytes) (v : Version) (sb : Bool), parse s b = .ok v → NotWildcard v = true → RoundTrips s v sb) ∧
+    (∀ (b1 b2 : Bytes) (v w : Version), parse s b1 = .ok v → parse s b2 = .ok w → NotWildcard v = true →
+      NotWildcard w = true → canon v true = canon w true → vcompare v w = .ok 0) :=
+  ⟨fun b v sb hp hw => canon_roundtrip s hs b v sb hp hw,
+   fun b1 b2 v w h1 h2 hv hw h => canon_injective_up_to_compare s hs b1 b2 v w h1 h2 hv hw h⟩
+
+/-- Non-vacuity for NuGet's floating labels: `1.0.0-Beta*` is accepted, is not a wildcard
+(its numbers are `1.0.0`), and is covered by the theorems. -/
+example : ∃ v, parse .nuget [49, 46, 48, 46, 48, 45, 66, 101, 116, 97, 42] = .ok v ∧ NotWildcard v = true := by
+  refine ⟨{ sys := .nuget, userNumCount := 3, isPrerelease := true, num := [1, 0, 0], pre := [[66, 101, 116, 97, 42]] }, ?_, ?_⟩ <;>
+    decide +kernel
 
 /-- Non-vacuity: NPM `v1.2-Beta-1+x.y` is accepted, is not a wildcard, and its canonical string
 is `1.2.0-Beta-1+x.y`. -/
